@@ -38,9 +38,13 @@
    CODE SHAPE SWITCH  UnwindReleasesStack.  The tree under verification (FALSE) does not release what is left on
    the evaluation stack of a script context that is unwound by an exception: RET moves the items, unwinding just
    forgets the stack.  The counter then over-counts for the rest of the execution: TLC refutes ExactAcyclic
-   (MC_Shape.cfg), and the real VM shows it (tools/checks/c12_xscript.py reports it from real traces, signature
-   cause = "abandoned-stack").  TRUE is the shape for which all clauses hold (the stack of an unwound script
-   context is cleared).  Configurations named *_code carry FALSE and check everything but exactness.
+   (configuration MC_Shape, derived from MC_Q1.cfg by tools/checks/c12_xscript.py), and the real VM shows it (the
+   check reports it from real traces, signature cause = "abandoned-stack": a listed known finding, the reference
+   VM unwinds the same way).  TRUE is the shape for which all clauses hold (the stack of an unwound script
+   context is cleared).  The .cfg files carry the shape of the code (FALSE) and check everything but exactness -
+   their behaviours are what is replayed on the real VM, with exact predictions of its counter -; the check derives
+   from each of them the TRUE variant, on which ALL clauses (ExactAcyclic, RcExact, AbsStep) are checked, and the
+   variants with one named deviation each.
 
    NAMED DEVIATIONS TLC must refute (non-vacuity):
      BugTruncFirst         the invocation stack is truncated to the handler BEFORE the unload decisions: every
